@@ -39,6 +39,9 @@ Reject(what, exp, got) ==
   /\ PrintT(<<"MISMATCH", tid, l, what>>) /\ PrintT(<<"DETAIL", ToString(exp), ToString(got)>>)
   /\ bad' = TRUE /\ UNCHANGED <<store, res, inflight, tid>>
 
+(* parallel-clients stage: several clients write at once, each to a namespace of its own; the database file and the watch *)
+(* events are not observed per operation there (the re-opened contents are)                                              *)
+Par(e) == "par" \in DOMAIN e /\ e.par
 Op(e) ==
   LET r == AbsReq(e) IN
   IF e.inj /\ IsWrite(r.op) /\ "ok" \in Outcomes(r)
@@ -50,8 +53,8 @@ Op(e) ==
        ELSE UNCHANGED <<store, res, inflight, tid, bad>>
   ELSE IF e.cls \notin Outcomes(r) THEN Reject("class", Outcomes(r), e.cls)
   ELSE IF AbsKVs(e.contents) # PairsOf(NewStore(r, e.cls)) THEN Reject("memory-contents", NewStore(r, e.cls), AbsKVs(e.contents))
-  ELSE IF AbsKVs(e.disk) # PairsOf(NewStore(r, e.cls)) THEN Reject("memory-diverged-from-disk", NewStore(r, e.cls), AbsKVs(e.disk))
-  ELSE IF e.nev # (IF e.cls = "ok" /\ IsWrite(r.op) THEN 1 ELSE 0) THEN Reject("watch-events", IF e.cls = "ok" /\ IsWrite(r.op) THEN 1 ELSE 0, e.nev)
+  ELSE IF ~Par(e) /\ AbsKVs(e.disk) # PairsOf(NewStore(r, e.cls)) THEN Reject("memory-diverged-from-disk", NewStore(r, e.cls), AbsKVs(e.disk))
+  ELSE IF ~Par(e) /\ e.nev # (IF e.cls = "ok" /\ IsWrite(r.op) THEN 1 ELSE 0) THEN Reject("watch-events", IF e.cls = "ok" /\ IsWrite(r.op) THEN 1 ELSE 0, e.nev)
   ELSE Do(r, e.cls) /\ UNCHANGED <<inflight, tid, bad>>
 
 Crash(e) == /\ inflight' = IF e.during THEN <<e>> ELSE <<>>
